@@ -117,6 +117,8 @@ def scan(
     exempt: Optional[dict[tuple[str, str], str]] = None,
     extra_types: Optional[dict[str, str]] = None,
     require_optional: bool = True,
+    extra_domain: Optional[set] = None,
+    binding_maps: Optional[tuple] = None,
 ) -> tuple[int, int]:
     """Record every decision site of `fn` (nested defs included) under `rule`.
 
@@ -131,10 +133,32 @@ def scan(
     n_id = n_tr = 0
     seen: set[int] = set()
 
+    def from_binding_map(e: ast.expr) -> Optional[str]:
+        """e is `<m>.get(k)` (or a local assigned from it) with <m> typed as one of binding_maps:
+        the value is a bound term even though the mapping is untyped (Any)."""
+        if not binding_maps:
+            return None
+        cands = [e]
+        if isinstance(e, ast.Name):
+            cands = [n.value for n in own_nodes(fn, include_nested=True) if isinstance(n, ast.Assign)
+                     and any(isinstance(t, ast.Name) and t.id == e.id for t in n.targets)]
+        for c in cands:
+            if isinstance(c, ast.Call) and isinstance(c.func, ast.Attribute) and c.func.attr == "get" and len(c.args) == 1:
+                rt = repo.typed.type_of(mod.name, c.func.value)
+                if rt and any(any(repo.typed.is_subclass(i, b) for b in binding_maps) for i in rt.items):
+                    return norm(c)
+        return None
+
     def fact(e: ast.expr):
+        bm = from_binding_map(e)
+        if bm is not None:
+            return True, ["rdflib.term.Literal"], "value of %s (a bound term or None)" % bm
         tf = repo.typed.type_of(mod.name, e)
         if tf is not None and not (tf.any and not tf.items):
-            return tf.optional, domain_hits(repo, tf), tf.text
+            hits = domain_hits(repo, tf)
+            if extra_domain:
+                hits = sorted(set(hits) | {i for i in tf.items if i in extra_domain})
+            return tf.optional, hits, tf.text
         if extra_types and isinstance(e, ast.Name) and e.id in extra_types:
             return extra_types[e.id]
         return None
